@@ -1514,12 +1514,14 @@ func structCopyFields(st *ssa.Store) []copiedField {
 	if n, isNamed := ld.Type().(*types.Named); !isNamed || n.Obj().Pkg() == nil || !inModule(n.Obj().Pkg()) {
 		return nil
 	}
+	if nestedLiteralDest(al) != nil {
+		return nil // the local of a nested literal: its field stores are already named after the destination
+	}
 	var out []copiedField
 	for j := 0; j < stt.NumFields(); j++ {
 		if v := structFieldValue(ld, j); v != nil {
 			out = append(out, copiedField{target: desc(&ssa.FieldAddr{X: st.Addr, Field: j}), val: v, field: j})
 		}
 	}
-	_ = al
 	return out
 }
